@@ -56,19 +56,20 @@ type opTrace struct {
 
 type schedRun struct {
 	executed []int // thread of every executed (non-blocked) step of the last phase
-	traces []opTrace
-	cs     schedCase
-	dir    string
-	bolt   *mercure.BoltTransport
-	local  *mercure.LocalTransport
-	tr     mercure.Transport
-	subs   []*mercure.LocalSubscriber
-	recvd  [][]string
-	lines  []string
-	impl   []string
-	store  *mercure.TopicSelectorStore
-	panics []string
-	dead   bool
+	traces   []opTrace
+	cs       schedCase
+	dir      string
+	bolt     *mercure.BoltTransport
+	local    *mercure.LocalTransport
+	tr       mercure.Transport
+	subs     []*mercure.LocalSubscriber
+	recvd    [][]string
+	lines    []string
+	impl     []string
+	store    *mercure.TopicSelectorStore
+	panics   []string
+	dead     bool
+	extra    []h.Violation // oracle findings recorded while the schedule runs
 }
 
 // padBolt grows the file (and hence bbolt's mmap) once, before any reader can be parked inside a read
@@ -337,10 +338,54 @@ func runSchedCaseT(c *h.Ctx, r *h.Report, cs schedCase) (trace []int, disagreed 
 
 			return label[i]
 		}
+		closeReturned := func(i int) {
+			// C15 at the instant a Close call returns (every other thread is parked): whatever was
+			// registered before THIS call began has been ended — also when another Close is under way
+			me := sr.traces[tbase+i]
+			was := map[int]bool{}
+			for _, o := range ph.Pre {
+				if o.Op == "add" {
+					was[o.Sub] = true
+				}
+			}
+			// "the close" is the first Close call: a registration that overlaps it is covered by neither
+			// clause of the property (DESIGN §15.5, observations), whichever Close call returns later
+			began := me.first
+			for _, t := range sr.traces[tbase:] {
+				if t.op.Op == "close" && t.first >= 0 && t.first < began {
+					began = t.first
+				}
+			}
+			for _, t := range sr.traces[tbase:] {
+				if t.op.Op == "add" && t.ret == "ok" && t.end >= 0 && began >= 0 && t.end < began {
+					was[t.op.Sub] = true
+				}
+			}
+			for _, t := range sr.traces[tbase:] {
+				// a subscriber whose removal has started is no longer (reliably) registered
+				if t.op.Op == "remove" && t.first >= 0 {
+					delete(was, t.op.Sub)
+				}
+			}
+			for _, o := range ph.Pre {
+				if o.Op == "remove" {
+					delete(was, o.Sub)
+				}
+			}
+			for si := range was {
+				if si < len(sr.subs) && !mercure.VerifSubDisconnected(sr.subs[si]) {
+					sr.extra = append(sr.extra, h.Violation{Key: "C15:close-returned-before-registered-subscriber-was-ended",
+						What: fmt.Sprintf("a Close call returned (step %d) while subscriber %d, registered before that call began, still has an open stream", steps, si)})
+				}
+			}
+		}
 		for i := range ph.Ops {
 			ev := sc.Step(i) // run to the first synchronisation operation
 			if ev.Done {
 				done[i] = true
+				if ph.Ops[i].Op == "close" && ev.Panic == "" {
+					closeReturned(i)
+				}
 			}
 			label[i] = ev.Label
 		}
@@ -390,6 +435,9 @@ func runSchedCaseT(c *h.Ctx, r *h.Report, cs schedCase) (trace []int, disagreed 
 			if ev.Done {
 				sr.traces[tbase+i].end = steps
 				sr.traces[tbase+i].ret = rets[i]
+				if ph.Ops[i].Op == "close" && ev.Panic == "" {
+					closeReturned(i)
+				}
 			}
 			moved := "1"
 			if ev.Blocked {
@@ -645,6 +693,9 @@ func genCloseCase(rr *h.Rand) schedCase {
 		}
 	}
 	ph.Ops = []schedOp{{Op: "close"}}
+	if rr.Bool() { // two overlapping Close calls: the second must not return before the first has finished
+		ph.Ops = append(ph.Ops, schedOp{Op: "close"})
+	}
 	for k := rr.Intn(3); k > 0; k-- {
 		switch rr.Intn(4) {
 		case 0:
@@ -779,7 +830,7 @@ func runSched(c *h.Ctx, r *h.Report) {
 		}
 		r.CountN("systematic:schedules-with-at-most-2-preemptions", total)
 	}
-	n := c.Scale(300, 20000)
+	n := c.Scale(500, 20000)
 	for i := 0; i < n; i++ {
 		cs := genSchedCase(c.Rand.Fork())
 		runSchedCase(c, r, cs)
@@ -926,6 +977,18 @@ func schedOracles(sr *schedRun, obs string) (vs []h.Violation) {
 			}
 		}
 	}
+	// C15: a publish or subscribe attempted after a Close call has returned is rejected
+	for _, c := range sr.traces {
+		if c.phase != lastPhase || c.op.Op != "close" || c.end < 0 {
+			continue
+		}
+		for _, t := range sr.traces {
+			if t.phase == lastPhase && (t.op.Op == "dispatch" || t.op.Op == "add") && t.first > c.end && t.end >= 0 && t.ret == "ok" {
+				vs = append(vs, h.Violation{Key: "C15:operation-after-close-accepted", What: fmt.Sprintf("%s started at step %d, after a Close call had returned at step %d, and was accepted", t.op.Op, t.first, c.end)})
+			}
+		}
+	}
+	vs = append(vs, sr.extra...)
 	// C15: after Close returned, every subscriber registered before the close BEGAN has its stream ended
 	// (a registration that overlaps the close is covered by neither clause of the property)
 	if f["closed"] == "1" {
